@@ -3,23 +3,42 @@
  *
  * Links the rebuilt src/set.c only; xmalloc() is provided here (xfree is a macro for free()).
  *
- *   h_set bfs    -c <cmp> -n <keys> -o <trace> [-p i/n | -P n] [-t <transitions>]
+ *   h_set bfs    -c <cmp> -n <keys> -o <trace> [-p i/n | -P n] [-t <transitions>] [-u <universe>] [-x <seed>] [-z 1] [-r 0]
  *        own breadth-first exploration of the REAL structure: every call from every reachable
  *        tree shape (dedup by shape).  For the i-th part of the shapes, logs
  *          Reset, the calls of a shortest path to the shape, Mark,
- *          then every call from that shape (each on a fresh set rebuilt along the same path; "b":1).
- *   h_set script -c <cmp> -n <keys> -o <trace> -s <script>
- *        R | I k [v] | F k | L k | D k nd | C nd | W | M | B | S <model shape of the previous call>
+ *          then every call from that shape (each on a fresh set rebuilt along the same path; "b":1),
+ *          then (unless -r 0), for every key k in the shape, the RECYCLING sequences (first call "b":1, the others "b":0):
+ *            D k 1 ; J k               the node taken out with no_dispose goes back in as a new key
+ *            D k 1 ; I k ; J k         ... replaces a fresh element with the equal key
+ *            D k 1 ; C 0 ; J k         ... goes into the emptied set (its old neighbours are freed memory)
+ *            D k 1 ; C 1 ; I k ; J k   ... replaces the ONLY element (its old neighbours are kept nodes)
+ *   h_set script -c <cmp> -n <keys> -o <trace> -s <script> [-u <universe>] [-x <seed>] [-z 1]
+ *        R | I k [v] | J k | F k | L k | D k nd | C nd | W | M | B | S <model shape of the previous call>
+ *
+ * Node objects.  set_insert() must write every link of the node it is given: a caller may hand in a node
+ * whose l/r/prev/next hold anything (src/config.c moves nodes between sets with set_remove(.., 1) +
+ * set_insert()).  Therefore
+ *   - every node allocated here has its four links pointed at four DECOY objects (valid memory that is not a
+ *     node of the history: it shows as id -3 in walks and dumps) before it is inserted  (-z 1: leave them zero);
+ *   - nodes handed back by set_remove(.., 1) / set_clear(.., 1) are kept, links untouched (the latest one per
+ *     rank), and "J k" inserts the kept node of rank k again, as a NEW element (fresh id): the old identity
+ *     was handed back and is never cleaned up, the new one is cleaned up exactly once when it is disposed.
+ *     Without a kept node of that rank J k is I k.  With set_compare_ptr every insertion re-uses the node.
  *
  * One ndjson line per call:
- *   {"e":"Op","o":..,"k":..,"nd":..,"id":..,"b":..,"res":..,"cl":[ids cleaned during the call],
+ *   {"e":"Op","o":..,"k":..,"nd":..,"id":..,"rc":1 if the inserted node object was recycled,"b":..,"res":..,"cl":[ids cleaned during the call],
  *    "size":set_size, "pre":[[k,id]..] first/next walk before, "fwd":[[k,id]..] walk after,
  *    "bwd":[ids] set_prev walk from the last, "root":id, "nodes":[[id,k,l,r,prev,next]..] raw links
  *    of the nodes reachable from the root, "shape":[pre-order keys, 0 = NULL]}
  * Nothing is judged here: TLC (spec/SetTrace.tla) evaluates the contract on these lines.
  * A call that does not return (sanitizer abort, assert, hang) leaves {"e":"Begin",..} as the last line.
  *
- * Keys are ranks 1..n; the rank -> concrete key tables are below (logged once as {"e":"Keys"}).
+ * Keys are ranks 1..n; the rank -> concrete key tables are below (logged once as {"e":"Keys"}; TLC checks that
+ * the table is ascending in the order the contract states for the comparator, SetTrace.tla KeysAscending).
+ * String keys: -u selects the universe (0: the historic one; 1..3: characters adjacent to the letter ranges,
+ * see str7; for more than 7 keys -u 1 draws the keys (seed -x) from all strings of length <= 2 over
+ * 0 9 @ [ \ ] ^ _ ` a m z { |).
  */
 #include "src/common.h"
 #include <limits.h>
@@ -48,8 +67,21 @@ struct el {
 /* ---- rank -> concrete key ------------------------------------------------------------------ */
 static int int7[7] = { INT_MIN, -2000000000, -1, 0, 1, 2000000000, INT_MAX };
 /* case-insensitive classes in ascending order; two spellings per class where letters exist */
-static const char *str7[7][2] = {
-    { "", "" }, { "_x", "_X" }, { "a", "A" }, { "ab", "aB" }, { "abc", "ABC" }, { "B", "b" }, { "zz~", "Zz~" } };
+#define NUNIV 4
+static int universe = 0;
+static unsigned pool_seed = 0;
+static int poison_on = 1;
+static int recycle_on = 1;     /* bfs: with the recycling sequences (-r 0: without) */
+static const char *str7[NUNIV][7][2] = {
+    /* 0 */
+    { { "", "" }, { "_x", "_X" }, { "a", "A" }, { "ab", "aB" }, { "abc", "ABC" }, { "B", "b" }, { "zz~", "Zz~" } },
+    /* 1: the empty string and single characters on both sides of both letter ranges:
+          "" < '@'(64) < '['(91) < '`'(96) < a/A < z/Z < '{'(123)   after mapping A-Z to a-z */
+    { { "", "" }, { "@", "@" }, { "[", "[" }, { "`", "`" }, { "a", "A" }, { "Z", "z" }, { "{", "{" } },
+    /* 2: keys that differ in their last character only, all extending the shortest one; case variants */
+    { { "n", "N" }, { "N0", "n0" }, { "n@", "N@" }, { "N[", "n[" }, { "n\\", "N\\" }, { "Na", "nA" }, { "n{", "N{" } },
+    /* 3: digits and the rest of the characters between 'Z' and 'a', and after 'z', behind a letter */
+    { { "9", "9" }, { "A9", "a9" }, { "a]", "A]" }, { "A^", "a^" }, { "a_", "A_" }, { "AZ", "az" }, { "a|", "A|" } } };
 static char voidp_arena[256];
 
 static int int_key(int rank)
@@ -66,12 +98,56 @@ static int int_key(int rank)
 }
 
 static char strbuf[2][300][12];
+/* -u 1, more than 7 keys: nkeys of the 211 strings of length <= 2 over the boundary alphabet (ascending in the
+   order of the contract), drawn with pool_seed; letters alternate in case, the two spellings the other way round */
+#define NALPHA 14
+#define NPOOL (1 + NALPHA + NALPHA * NALPHA)
+static const char alpha[NALPHA + 1] = "09@[\\]^_`amz{|";
+static int pool_pick[300], pool_ready;
+static int cmp_intp(const void *a, const void *b) { return *(const int *)a - *(const int *)b; }
+static void pool_init(void)
+{
+    int idx[NPOOL], i;
+    unsigned long long st = 0x9E3779B97F4A7C15ULL ^ ((unsigned long long)pool_seed * 0xD1342543DE82EF95ULL + 1);
+    for (i = 0; i < NPOOL; i++) idx[i] = i;
+    for (i = 0; i < nkeys; i++) {           /* partial Fisher-Yates */
+        int j;
+        st = st * 6364136223846793005ULL + 1442695040888963407ULL;
+        j = i + (int)((st >> 33) % (unsigned)(NPOOL - i));
+        { int t = idx[i]; idx[i] = idx[j]; idx[j] = t; }
+    }
+    qsort(idx, nkeys, sizeof(idx[0]), cmp_intp);
+    for (i = 0; i < nkeys; i++) pool_pick[i + 1] = idx[i];
+    pool_ready = 1;
+}
+static const char *pool_key(int rank, int variant)
+{
+    char *b = strbuf[variant & 1][rank];
+    int ix, len = 0, i;
+    if (!pool_ready) pool_init();
+    ix = pool_pick[rank];
+    /* index in prefix-first lexicographic order: 0 = "", then per first character: itself, then its 14 extensions */
+    if (ix > 0) {
+        int c1 = (ix - 1) / (NALPHA + 1), rest = (ix - 1) % (NALPHA + 1);
+        b[len++] = alpha[c1];
+        if (rest > 0) b[len++] = alpha[rest - 1];
+    }
+    for (i = 0; i < len; i++)
+        if (b[i] >= 'a' && b[i] <= 'z' && ((i + variant) & 1)) b[i] = (char)(b[i] - 32);
+    b[len] = 0;
+    return b;
+}
+
 static const char *str_key(int rank, int variant)
 {
+    if (nkeys <= 7 && universe > 0)
+        return str7[universe][rank - 1][variant & 1];
     if (nkeys <= 7) {
         static const int pick[8][7] = { {0}, {2}, {2,5}, {0,2,5}, {0,2,3,5}, {0,2,3,4,5}, {0,1,2,3,4,5}, {0,1,2,3,4,5,6} };
-        return str7[pick[nkeys][rank - 1]][variant & 1];
+        return str7[0][pick[nkeys][rank - 1]][variant & 1];
     }
+    if (universe > 0)
+        return pool_key(rank, variant);
     /* k%03d with letters: "Kaab" / "kAAB" style, ascending in rank, case variants equal */
     char *b = strbuf[variant & 1][rank];
     int r = rank;
@@ -137,6 +213,16 @@ static int next_id;
 static int cleaned[4096], ncleaned;
 static struct set_node *ptr_nodes[300];   /* CMP_PTR: node of rank k in this history */
 static char ptr_dead[300];
+static struct set_node *kept_nodes[300];  /* other comparators: latest node of rank k handed back with no_dispose */
+
+/* four objects that are no nodes of any history: what the links of a newly allocated node point at */
+static struct { struct set_node n; struct el e; } decoy[4];
+static void poison_links(struct set_node *n)
+{
+    if (!poison_on) return;
+    memset(decoy, 0, sizeof(decoy));
+    n->l = &decoy[0].n; n->r = &decoy[1].n; n->prev = &decoy[2].n; n->next = &decoy[3].n;
+}
 
 static void cleanup_cb(void *data)
 {
@@ -161,6 +247,7 @@ static void teardown(void)
             if (h && h->id != -99) { h->id = -99; free(hist_nodes[i]); }
         }
     hist_n = 0;
+    memset(kept_nodes, 0, sizeof(kept_nodes));
     free(S);
     S = NULL;
 }
@@ -182,6 +269,7 @@ static void fresh(void)
             struct el *e = set_node_data(ptr_nodes[i]);
             e->rank = i + 1; e->id = -1;
             reg_node(ptr_nodes[i], -1);
+            poison_links(ptr_nodes[i]);
             ptr_dead[i] = 0;
         }
     }
@@ -279,10 +367,10 @@ static void dump(int want_nodes)
 }
 
 /* ---- one call --------------------------------------------------------------------------------- */
-struct opd { char o; int k, nd, v; };   /* o: I F L D C W */
+struct opd { char o; int k, nd, v; };   /* o: I J F L D C W */
 static const char *opname(char o)
 {
-    switch (o) { case 'I': return "ins"; case 'F': return "find"; case 'L': return "lower";
+    switch (o) { case 'I': case 'J': return "ins"; case 'F': return "find"; case 'L': return "lower";
                  case 'D': return "rem"; case 'C': return "clear"; default: return "iter"; }
 }
 
@@ -307,11 +395,17 @@ static void on_signal(int sig)
 
 static unsigned long n_calls;
 static unsigned long st_op[6], st_cleanups, st_replaced, st_hit, st_miss;
-static int opidx(char o) { return o == 'I' ? 0 : o == 'F' ? 1 : o == 'L' ? 2 : o == 'D' ? 3 : o == 'C' ? 4 : 5; }
+/* logged insertions of a node object whose links were not all NULL on entry: poisoned (new) and stale (recycled);
+   the recycled ones by the set they went into: empty, one element with the equal key, larger as a new key /
+   as a replacement */
+static unsigned long st_poisoned, st_rc, st_rc_stale, st_rc_empty, st_rc_single, st_rc_new, st_rc_repl;
+static int opidx(char o) { return o == 'I' || o == 'J' ? 0 : o == 'F' ? 1 : o == 'L' ? 2 : o == 'D' ? 3 : o == 'C' ? 4 : 5; }
 static void print_stats(void)
 {
     printf("\"ops\":{\"ins\":%lu,\"find\":%lu,\"lower\":%lu,\"rem\":%lu,\"clear\":%lu,\"iter\":%lu},\"cleanup_calls\":%lu,\"replacing_inserts\":%lu,\"hits\":%lu,\"misses\":%lu",
            st_op[0], st_op[1], st_op[2], st_op[3], st_op[4], st_op[5], st_cleanups, st_replaced, st_hit, st_miss);
+    printf(",\"poisoned_inserts\":%lu,\"recycled\":{\"all\":%lu,\"stale\":%lu,\"into_empty\":%lu,\"replace_only_element\":%lu,\"new_key\":%lu,\"replace\":%lu}",
+           st_poisoned, st_rc, st_rc_stale, st_rc_empty, st_rc_single, st_rc_new, st_rc_repl);
 }
 
 /* returns 0, or -1 if the script asks for something the API forbids (CMP_PTR re-insertion) */
@@ -320,12 +414,12 @@ static int do_op(struct opd op, int log, int b)
     struct walk pre, fwd, bwd;
     struct set_node *last, *n;
     struct el *e;
-    int res = 0, id = 0, i, j;
+    int res = 0, id = 0, i, j, rc = 0, dirty = 0, stale = 0, present = 0;
 
     if ((++n_calls & 1023) == 0) alarm(20);
-    if (log || op.o == 'D' || op.o == 'C' || op.o == 'I')
+    if (log || op.o == 'D' || op.o == 'C' || op.o == 'I' || op.o == 'J')
         walk_fwd(&pre, &last);
-    if (op.o == 'I') {
+    if (op.o == 'I' || op.o == 'J') {
         id = next_id++;
         if (op.v < 0) op.v = id & 1;
         if (cmp_kind == CMP_PTR) {
@@ -333,7 +427,15 @@ static int do_op(struct opd op, int log, int b)
             if (ptr_dead[op.k - 1]) return -1;
             for (i = 0; i < pre.n; i++) if (pre.k[i] == op.k) return -1;
             e = set_node_data(n);
+            rc = e->id > 0;                       /* was in the set before: links are what they were at removal */
             hfind(n, 0)->id = id;
+        } else if (op.o == 'J' && kept_nodes[op.k]) {
+            n = kept_nodes[op.k];
+            kept_nodes[op.k] = NULL;
+            e = set_node_data(n);
+            op.v = e->variant;
+            hfind(n, 0)->id = id;
+            rc = 1;
         } else {
             n = set_node_alloc(sizeof(struct el));
             e = set_node_data(n);
@@ -341,14 +443,18 @@ static int do_op(struct opd op, int log, int b)
             else if (cmp_kind == CMP_CHARP) e->key.s = (char *)str_key(op.k, op.v);
             else e->key.p = voidp_key(op.k);
             reg_node(n, id);
+            poison_links(n);
         }
         e->id = id; e->rank = op.k; e->variant = op.v;
+        dirty = n->l || n->r || n->prev || n->next;
+        stale = rc && dirty && n->l != &decoy[0].n;
+        for (i = 0; i < pre.n; i++) if (pre.k[i] == op.k) present = 1;
     }
     ncleaned = 0;
-    snprintf(begin_line, sizeof(begin_line), "{\"e\":\"Begin\",\"o\":\"%s\",\"k\":%d,\"nd\":%d,\"id\":%d}\n", opname(op.o), op.k, op.nd, id);
+    snprintf(begin_line, sizeof(begin_line), "{\"e\":\"Begin\",\"o\":\"%s\",\"k\":%d,\"nd\":%d,\"id\":%d,\"rc\":%d}\n", opname(op.o), op.k, op.nd, id, rc);
     in_call = 1;
     switch (op.o) {
-    case 'I': set_insert(S, n); break;
+    case 'I': case 'J': set_insert(S, n); break;
     case 'F': { void *d = set_find(S, datum(op.k, op.v < 0 ? (int)(n_calls & 1) : op.v));
                 res = d ? node_id(set_node(d)) : 0; break; }
     case 'L': res = node_id(set_lower(S, datum(op.k, op.v < 0 ? (int)(n_calls & 1) : op.v))); break;
@@ -358,10 +464,21 @@ static int do_op(struct opd op, int log, int b)
     }
     if (log) {
         st_op[opidx(op.o)]++; st_cleanups += ncleaned;
-        if (op.o == 'I' && ncleaned) st_replaced++;
+        if ((op.o == 'I' || op.o == 'J') && ncleaned) st_replaced++;
+        if (op.o == 'I' || op.o == 'J') {
+            if (dirty && !rc) st_poisoned++;
+            if (rc) st_rc++;
+            if (stale) {
+                st_rc_stale++;
+                if (pre.n == 0) st_rc_empty++;
+                else if (pre.n == 1 && present) st_rc_single++;
+                else if (present) st_rc_repl++;
+                else st_rc_new++;
+            }
+        }
         if (op.o == 'F' || op.o == 'L' || op.o == 'D') { if (res) st_hit++; else st_miss++; }
         lp = 0;
-        EMIT("{\"e\":\"Op\",\"o\":\"%s\",\"k\":%d,\"nd\":%d,\"id\":%d,\"b\":%d,\"res\":%d,\"cl\":[", opname(op.o), op.k, op.nd, id, b, res);
+        EMIT("{\"e\":\"Op\",\"o\":\"%s\",\"k\":%d,\"nd\":%d,\"id\":%d,\"rc\":%d,\"b\":%d,\"res\":%d,\"cl\":[", opname(op.o), op.k, op.nd, id, rc, b, res);
         for (i = 0; i < ncleaned; i++) EMIT("%s%d", i ? "," : "", cleaned[i]);
         EMIT("],\"size\":%u", set_size(S));
         emit_pairs("pre", &pre);
@@ -377,17 +494,26 @@ static int do_op(struct opd op, int log, int b)
     dump(log);
     in_call = 0;
     if (log) { EMIT("}\n"); fwrite(line, 1, lp, out); }
-    /* elements handed back without disposal (in the walk before, not after, not cleaned) are ours to free */
-    if (op.o == 'D' || op.o == 'C' || op.o == 'I') {
+    /* elements handed back without disposal (in the walk before, not after, not cleaned) are ours: the latest
+       one per rank is kept as it is (links untouched) for "J k", the one it supersedes is freed */
+    if (op.o == 'D' || op.o == 'C' || op.o == 'I' || op.o == 'J') {
         for (i = 0; i < pre.n; i++) {
             int gone = pre.id[i] > 0;
             for (j = 0; gone && j < fwd.n; j++) if (fwd.id[j] == pre.id[i]) gone = 0;
             for (j = 0; gone && j < ncleaned; j++) if (cleaned[j] == pre.id[i]) gone = 0;
-            if (gone && cmp_kind != CMP_PTR && (op.o != 'I')) {
+            if (gone && cmp_kind != CMP_PTR && op.o != 'I' && op.o != 'J') {
                 /* find the node by id among this history's nodes */
                 int t;
                 for (t = hist_n - 1; t >= 0; t--)
-                    if (node_id(hist_nodes[t]) == pre.id[i]) { hfind(hist_nodes[t], 0)->id = -99; free(hist_nodes[t]); break; }
+                    if (node_id(hist_nodes[t]) == pre.id[i]) {
+                        int rk = pre.k[i];
+                        struct set_node *old = rk >= 1 && rk < 300 ? kept_nodes[rk] : hist_nodes[t];
+                        if (old && old != hist_nodes[t] && hfind(old, 0) && hfind(old, 0)->id != -99
+                            && !__asan_region_is_poisoned(old, sizeof(*old))) { hfind(old, 0)->id = -99; free(old); }
+                        if (rk >= 1 && rk < 300) kept_nodes[rk] = hist_nodes[t];
+                        else { hfind(hist_nodes[t], 0)->id = -99; free(hist_nodes[t]); }
+                        break;
+                    }
             }
         }
         if (cmp_kind == CMP_PTR)
@@ -471,7 +597,7 @@ static int bfs(int part, int nparts, FILE *trans)
 {
     struct opd none = { 0, 0, 0, 0 };
     int si, empty[1] = { 0 };
-    unsigned long logged = 0, hist = 0, skipped = 0;
+    unsigned long logged = 0, hist = 0, skipped = 0, composites = 0;
     int capped = 0;
     {   /* sum over k of C(nkeys, k) * Catalan(k): more shapes than that cannot all be search trees */
         double total = 0, binom = 1, cat = 1;
@@ -527,10 +653,47 @@ static int bfs(int part, int nparts, FILE *trans)
                 fputc('\n', trans);
             }
         }
+        /* recycling sequences: the node of key k is taken out with no_dispose (it keeps the links it had as the
+           root of this tree) and inserted again, see the head of this file.  Each call is a transition from the
+           shape before it; shapes met here are not used as new starting points. */
+        for (k = 1; recycle_on && k <= nkeys; k++) {
+            static const char *seqs[4] = { "DJ", "DIJ", "DcJ", "DCIJ" };    /* c: clear with disposal, C: without */
+            int q, in_shape = 0, j;
+            for (j = 0; j < shapes[si].n; j++) if (shapes[si].s[j] == k) in_shape = 1;
+            if (!in_shape) continue;
+            for (q = 0; q < 4; q++) {
+                const char *c;
+                int first = 1, prevs[4096], prevn;
+                /* no disposal, no replacement with the node-address comparator: only D J and D C J */
+                if (cmp_kind == CMP_PTR && (q == 1 || q == 2)) continue;
+                run_path(si, 0);
+                prevn = shapes[si].n;
+                for (j = 0; j < prevn; j++) prevs[j] = shapes[si].s[j];
+                for (c = seqs[q]; *c; c++) {
+                    struct opd o = { *c, k, 0, -1 };
+                    if (*c == 'D') o.nd = 1;
+                    else if (*c == 'c') { o.o = 'C'; o.k = 0; o.nd = 0; }
+                    else if (*c == 'C') { o.k = 0; o.nd = 1; }
+                    else if (*c == 'I' && cmp_kind == CMP_PTR) continue;
+                    if (do_op(o, mine, first) < 0) break;
+                    first = 0;
+                    if (mine) logged++;
+                    if (trans) {
+                        for (j = 0; j < prevn; j++) fprintf(trans, "%s%d", j ? "," : "", prevs[j]);
+                        fprintf(trans, ";%s;%d;%d;", opname(o.o), o.k, o.nd);
+                        for (j = 0; j < shape_n; j++) fprintf(trans, "%s%d", j ? "," : "", shape_buf[j]);
+                        fputc('\n', trans);
+                    }
+                    prevn = shape_n;
+                    for (j = 0; j < shape_n; j++) prevs[j] = shape_buf[j];
+                }
+                if (mine) composites++;
+            }
+        }
     }
     teardown();
-    printf("{\"shapes\":%d,\"calls\":%lu,\"logged\":%lu,\"histories\":%lu,\"maxdepth\":%d,\"not_expanded\":%lu,\"capped\":%d,",
-           nshapes, n_calls, logged, hist, shapes[nshapes - 1].depth, skipped, capped);
+    printf("{\"shapes\":%d,\"calls\":%lu,\"logged\":%lu,\"histories\":%lu,\"composites\":%lu,\"maxdepth\":%d,\"not_expanded\":%lu,\"capped\":%d,",
+           nshapes, n_calls, logged, hist, composites, shapes[nshapes - 1].depth, skipped, capped);
     print_stats();
     printf("}\n");
     return 0;
@@ -574,7 +737,7 @@ static int script(const char *path)
             pending_b = 1;
             continue;
         }
-        if (c == 'I' || c == 'F' || c == 'L') sscanf(buf + 1, "%d %d", &op.k, &op.v);
+        if (c == 'I' || c == 'J' || c == 'F' || c == 'L') sscanf(buf + 1, "%d %d", &op.k, &op.v);
         else if (c == 'D') sscanf(buf + 1, "%d %d %d", &op.k, &op.nd, &op.v);
         else if (c == 'C') sscanf(buf + 1, "%d", &op.nd);
         else if (c != 'W') continue;
@@ -609,7 +772,7 @@ static void log_keys(void)
 {
     int k, i;
     lp = 0;
-    EMIT("{\"e\":\"Keys\",\"cmp\":\"%s\",\"n\":%d,\"keys\":[", cmp_kind == CMP_INT ? "int" : cmp_kind == CMP_CHARP ? "charp" : cmp_kind == CMP_VOIDP ? "voidp" : "ptr", nkeys);
+    EMIT("{\"e\":\"Keys\",\"cmp\":\"%s\",\"n\":%d,\"u\":%d,\"x\":%u,\"keys\":[", cmp_kind == CMP_INT ? "int" : cmp_kind == CMP_CHARP ? "charp" : cmp_kind == CMP_VOIDP ? "voidp" : "ptr", nkeys, universe, pool_seed);
     for (k = 1; k <= nkeys; k++) {
         if (cmp_kind == CMP_INT) {
             /* as [sign, high 16 bits, low 16 bits] of the magnitude: TLC integers are 32 bit */
@@ -652,9 +815,15 @@ int main(int argc, char **argv)
         else if (!strcmp(argv[i], "-t")) transp = argv[i + 1];
         else if (!strcmp(argv[i], "-p")) sscanf(argv[i + 1], "%d/%d", &part, &nparts);
         else if (!strcmp(argv[i], "-P")) { nparts = atoi(argv[i + 1]); split = 1; }
+        else if (!strcmp(argv[i], "-u")) universe = atoi(argv[i + 1]);
+        else if (!strcmp(argv[i], "-x")) pool_seed = (unsigned)strtoul(argv[i + 1], NULL, 10);
+        else if (!strcmp(argv[i], "-z")) poison_on = !atoi(argv[i + 1]);
+        else if (!strcmp(argv[i], "-r")) recycle_on = atoi(argv[i + 1]);
     }
-    if (!outp || nkeys < 1 || nkeys > 250 || nparts < 1) {
-        fprintf(stderr, "usage: h_set bfs|script -c int|charp|voidp|ptr -n keys -o trace [-p i/n] [-t transitions] [-s script]\n");
+    if (!outp || nkeys < 1 || nkeys > 250 || nparts < 1 || universe < 0 || universe >= NUNIV
+        || (universe > 0 && (cmp_kind != CMP_CHARP || (nkeys < 7 ) || (nkeys > 7 && (universe != 1 || nkeys > NPOOL))))) {
+        fprintf(stderr, "usage: h_set bfs|script -c int|charp|voidp|ptr -n keys -o trace [-p i/n] [-t transitions] [-s script]\n"
+                        "       [-u 1..3 (charp, 7 keys) | -u 1 -x seed (charp, 8..%d keys)] [-z 1]\n", NPOOL);
         return 2;
     }
     if (split) {
